@@ -102,7 +102,12 @@ def features(case):
     in_rsp = [i for i in range(len(case["objs"])) if rsp["use"] and (rsp["which"] >> i) & 1 and i > 0]
     if in_rsp and hostile(case["savedir"]):
         # $D (the bundle directory) is substituted into every saved response-file entry.
-        keys.append(f"quoting:rsp-entry:{case['savedir']['cls']}")
+        sdcls = case["savedir"]["cls"]
+        chars = CLASS_CHARS[sdcls]
+        if "&" in chars[case["savedir"]["ch"] % len(chars)]:
+            # bash >= 5.2: '&' in the replacement of ${LINE//\$D/$D} stands for the matched text
+            sdcls = "ampersand-in-bundle-dir"
+        keys.append(f"quoting:rsp-entry:{sdcls}")
     if hostile(case["savedir"]):
         keys.append(f"quoting:save-dir:{case['savedir']['cls']}")
     if in_rsp:
@@ -137,6 +142,9 @@ def features(case):
             cls = v["cls"]
             if cls == "hash" and v["lead"] and case[opt]["form"] != "eq":
                 cls = "hash-at-word-start"    # a separate word starting with '#' is a shell comment
+            if (cls == "misc" and v["lead"] and case[opt]["form"] != "eq"
+                    and CLASS_CHARS["misc"][v["ch"] % len(CLASS_CHARS["misc"])] == "@"):
+                cls = "at-sign-at-word-start"  # save_dir takes every word starting with '@' for a response file
             keys.append(f"quoting:plain-arg:{cls}")
     if case["out_form"].startswith("--output"):
         keys.append(SIG_OUTFORM)
@@ -232,6 +240,7 @@ class C24(Check):
         return None
 
     # --------------------------------------------------------------------------------------------
+    @hist.retry_environmental
     def run_case(self, case, ctx):
         w = os.path.join(ctx.dir, "w")
         os.makedirs(w)
@@ -405,7 +414,7 @@ class C24(Check):
         if r1.timed_out:
             raise Inconclusive("wild timed out")
         if r1.rc != 0:
-            raise Violation("save-dir-breaks-link:" + sig("save"), f"the link succeeds without WILD_SAVE_DIR but fails with it: "
+            raise Violation(sig("save"), f"[save] the link succeeds without WILD_SAVE_DIR but fails with it: "
                             f"{r1.err.strip()[-300:]}", detail)
         b1 = open(out1, "rb").read()
         if b1 != ref_bytes:
